@@ -37,7 +37,10 @@ def main():
             run(["git", "-C", "/repo", "revert", "--abort"])
             run(["git", "-C", "/repo", "reset", "--hard", "-q", "HEAD"])
         print(f["id"], out[f["id"]], flush=True)
-    Path("/verif/tools/regress_fixed_result.json").write_text(json.dumps(out, indent=1) + "\n")
+    res_file = Path("/verif/tools/regress_fixed_result.json")
+    if want and res_file.is_file():
+        out = {**json.loads(res_file.read_text()), **out}
+    res_file.write_text(json.dumps(out, indent=1) + "\n")
 
 
 if __name__ == "__main__":
